@@ -24,7 +24,9 @@ LEVEL_NOTE = ("Trusted: Coq kernel, Go harness + Python glue. Modelled, not veri
               "(address injectivity), Go scheduler. doDelete can abort with ErrMergeNeeded when the head moves between two of its own attempts: "
               "stated in the spec (consistent, third disjunct). A failed call may be answered from a stale cached root when the client's view was "
               "not rebased (second disjunct quantifies over prefixes of the order).")
-THEOREMS = ["update_linearizable", "no_lost_update", "cond_update_respects_check", "ordinary_moves_forward", "forced_are_writes"]
+THEOREMS = ["update_linearizable", "no_lost_update", "cond_update_respects_check", "ordinary_moves_forward", "forced_are_writes",
+            "cond_update_respects_check_nbs_lockhash_refuted"]
+REFUTED = ["cond_update_respects_check_nbs_lockhash_refuted"]
 RULE = ("histories of 4-12 API calls by 2-3 handles (commit / forced commit / fast-forward / set-head / delete with and without working-set check / "
         "working-set update / commit+working-set / tag) on 2 branches, 2 working sets, 1 tag, interleaved with rebase and handle refresh; concurrent "
         "batches of 2-4 calls; non-trivial = at least one call took effect; distinct by content")
